@@ -227,3 +227,59 @@ def run(ctx):
         ctx.touch(g_)
         ctx.ob('C09.6', g_, 'char-boundary:' + s_.name, ok_, '%s on summarised text %s' % (s_.name, 'with the offset derived / tested in the same function' if ok_ else
                'with an UNCHECKED byte offset: a multi-byte character straddling it panics the compaction job after job_spawned — no checkpoint, no job_ended'), line=s_.line)
+
+    # ---------------------------------------------------------------- C09.7
+    ctx.rule('C09.7', 'a manual checkpoint ends AT a message: in compaction_checkpoint_cumulative_v1 the lookup that pairs the requested to_seq with a message id tests the message\'s seq for '
+             'equality with it (an `==` in a closure that captures to_seq, or a binary search consumed on its Ok side only). An ordering search (partition_point, `<=`) accepts a seq between '
+             'two messages — or far past the head — and records it paired with the id of an earlier message.')
+    cc7 = P.fn('ripd::continuities::ContinuityStore::compaction_checkpoint_cumulative_v1')
+    ctx.touch(cc7)
+    tl7 = None
+    for (bi, si, st) in cc7.aggregates(r'CompactionCheckpointCreatedPayload$'):
+        rv7 = st['rv']
+        if 'to_seq' in rv7['fields']:
+            tl7 = cc7.root_local(rv7['a'][rv7['fields'].index('to_seq')])
+    if tl7 is None:
+        raise CheckError('C09.7: the checkpoint frame construction (to_seq) was not found in compaction_checkpoint_cumulative_v1')
+    eq7, ord7 = [], []
+    # the searches whose result the recorded to_seq / message id are built from
+    opi7 = None
+    for (bi, si, st) in cc7.aggregates(r'CompactionCheckpointCreatedPayload$'):
+        rv7 = st['rv']
+        if 'to_seq' in rv7['fields']:
+            opi7 = rv7['a'][rv7['fields'].index('to_seq')]
+    R7 = reads_locals(cc7, opi7) | {tl7}
+    SEARCH7 = r'::(find|find_map|position|rposition|partition_point|binary_search_by|binary_search_by_key|any|rfind)$'
+    for s_ in cc7.calls(SEARCH7):
+        if s_.dest is None or s_.dest['l'] not in R7:
+            continue
+        for a in s_.args[1:]:
+            o7 = cc7.origin(a)
+            if not (o7[0] == 'rv' and o7[1].get('ak') == 'closure' and o7[1].get('def') in P.fns):
+                continue
+            cf7 = P.fns[o7[1]['def']]
+            for b2 in cf7.reachable():
+                for s2 in cf7.blocks[b2]['s']:
+                    r2 = s2.get('rv') or {}
+                    if r2.get('k') == 'bin' and r2['op'] in ('Eq', 'Ne', 'Le', 'Lt', 'Ge', 'Gt'):
+                        sides = [cf7.origin(x) for x in r2['a']]
+                        if any(o[0] == 'local' and o[1] == 1 for o in sides):      # one side is a captured value
+                            (eq7 if r2['op'] in ('Eq', 'Ne') else ord7).append((cf7, s2.get('ln', cf7.line), r2['op']))
+    # the lookup may sit in a private helper (`message_at_seq(&events, to_seq)`): read the helper and its closures the same way
+    for s_ in cc7.sites():
+        H7 = P.fns.get(s_.callee or '')
+        if H7 is None or H7.crate != 'ripd' or s_.dest is None or s_.dest['l'] not in R7 or (s_.callee or '').startswith('ripd::continuities::ContinuityStore::'):
+            continue
+        for g7 in [H7] + P.closures_of(H7.path):
+            for b2 in g7.reachable():
+                for s2 in g7.blocks[b2]['s']:
+                    r2 = s2.get('rv') or {}
+                    if r2.get('k') == 'bin' and r2['op'] in ('Eq', 'Ne', 'Le', 'Lt', 'Ge', 'Gt') and all(re.search(r'^u64$|^&u64$', g7.lty((op_place(x) or {}).get('l', 0)) or '') or op_place(x) is None for x in r2['a']):
+                        (eq7 if r2['op'] in ('Eq', 'Ne') else ord7).append((g7, s2.get('ln', g7.line), r2['op']))
+    bs7 = [s_ for s_ in cc7.calls(r'::(binary_search_by|binary_search_by_key|binary_search)$')]
+    ok7 = bool(eq7) and not ord7
+    ctx.ob('C09.7', cc7, 'to-seq-is-a-message-boundary', ok7,
+           'the requested to_seq is matched against message seqs %s' % ('by equality (%d comparison(s)), never by order' % len(eq7) if ok7 else
+           ('by ORDER (%s at line %s): a to_seq that is not a message is accepted and paired with an earlier message' % (ord7[0][2], ord7[0][1]) if ord7 else
+            'by no equality test in any closure that captures it%s: a to_seq that is not a message boundary can be recorded' % (' (a binary search is present)' if bs7 else ''))),
+           line=(ord7[0][1] if ord7 else cc7.line))
